@@ -610,13 +610,17 @@ func AuthCreds() []authentication.Credentials {
 
 // Serve sends the wire request through pithos' signature middleware in front of
 // a recording handler that reads the whole body.
-func Serve(region string, w *Wire) (res Result) {
-	r, err := w.ServerRequest()
+func Serve(region string, w *Wire) (res Result) { return ServeRaw(region, w.Bytes()) }
+
+// ServeRaw is Serve for arbitrary wire bytes.
+func ServeRaw(region string, raw []byte) (res Result) {
+	r, err := http.ReadRequest(bufio.NewReader(bytes.NewReader(raw)))
 	if err != nil {
 		res.ParseErr = err
 		res.Status = 400
 		return
 	}
+	r.RemoteAddr = "192.0.2.1:40000"
 	next := http.HandlerFunc(func(rw http.ResponseWriter, r *http.Request) {
 		res.Reached = true
 		if v, ok := r.Context().Value(authentication.IsAuthenticatedContextKey{}).(bool); ok {
